@@ -178,6 +178,20 @@ def run(ctx):
     shared.registry_hygiene(ctx, "R3")
     # ---- R6 every background task is owned (reachable by exit / stop) -----------------------------
     shared.background_tasks_owned(ctx, "R6")
+    # ---- R7 is_running claims liveness only with a live consumer task ------------------------------------
+    from sa.util import canon_atom
+    ir_ = p.cls("Interpreter").methods.get("is_running")
+    if ir_ is not None:
+        rets = [x for x in own_nodes(ir_.node) if isinstance(x, ast.Return) and x.value is not None]
+        okr = False
+        for x in rets:
+            parts = x.value.values if isinstance(x.value, ast.BoolOp) and isinstance(x.value.op, ast.And) else [x.value]
+            at = {canon_atom(v_) for v_ in parts}
+            okr = ("==", "'running'", "self.status", True) in at and any(t[0] == "is" and "self._event_loop_task" in (t[1], t[2]) and "None" in (t[1], t[2]) and t[3] is False for t in at) \
+                and ("truthy", "self._event_loop_task.done()", "", False) in at
+        c.ob("R7", okr, ir_, "is-running-needs-live-loop", "is_running = status running and a consumer task that exists and has not finished" if okr else
+             "Interpreter.is_running is no longer the conjunction 'status is running, the loop task exists, the loop task is not done': a restored or "
+             "stopped-loop interpreter reports it is processing events while nothing drains its queue", ir_.node)
     # ---- R5 a child leaves the actor map only together with its stop ---------------------------
     shared.actor_removal_with_stop(ctx, "R5")
     # ---- R4 send() after done/error/stopped queues nothing: see C10.R2 --------------------
